@@ -444,7 +444,7 @@ func (w *World) slow(t *Task, site int) {
 	if t.vDeadline > 0 && w.Vnow > t.vDeadline {
 		w.stopNow(t, StopOpVTime, site)
 	}
-	if w.vLimit > 0 && w.Vnow > w.vLimit {
+	if w.vLimit > 0 && w.Vnow > w.vLimit && w.liveSpawned() > 0 {
 		w.stopNow(t, StopWorldTime, site)
 	}
 	// why are we here?
@@ -881,6 +881,11 @@ func LiveSpawned() int {
 	if w == nil {
 		return 0
 	}
+	return w.liveSpawned()
+}
+
+//go:norace
+func (w *World) liveSpawned() int {
 	n := 0
 	for i := 0; i < w.ntasks; i++ {
 		if w.Tasks[i].Site != 0 && w.Tasks[i].state != stDone {
@@ -1673,4 +1678,14 @@ func Inflight(d int) {
 	if W != nil {
 		W.inflight += d
 	}
+}
+
+// PoolHitCount is the number of pool Gets that returned a pooled item so far.
+//
+//go:norace
+func PoolHitCount() int64 {
+	if W == nil {
+		return 0
+	}
+	return W.St.PoolHits
 }
